@@ -1227,6 +1227,10 @@ def vf_join(ex, st, args, ins):
     raise Blocked()
 @builtin('vf_clock_ns')
 def vf_clock_ns(ex, st, args, ins): return _clock(st)
+@builtin('vf_cond_waiters')
+def vf_cond_waiters(ex, st, args, ins):
+    """number of threads currently blocked on any condition variable ("current waiters" of the primitives built on one)"""
+    return sum(len(ws) for ws in st.ghost.get('cond_waiters', {}).values())
 @builtin('vf_tid')
 def vf_tid(ex, st, args, ins): return st.threads[st.cur].tid
 
